@@ -25,7 +25,7 @@ fn main() {
     let result = std::panic::catch_unwind(|| {
         let mut bad: Vec<&'static str> = vec![];
         let mut w = Writer::new(max, lp);
-        let mut pending: Vec<(String, usize)> = vec![];     // expected text pieces of metrics written since the last drain
+        let mut pending: Vec<(String, usize, u64)> = vec![];     // per write since the last drain: expected head\u{1}tail, number of values, payloads it reported as written
         let (mut written, mut dropped, mut points) = (0u64, 0u64, 0u64);
         for (oi, op) in ops.iter().enumerate() {
             let p: Vec<&str> = op.split(':').collect();
@@ -34,7 +34,10 @@ fn main() {
                 let n = w.drain(|b| payloads.push(b.to_vec()));
                 if n != payloads.len() { bad.push("every_point_written_or_dropped"); }
                 let mut carried = 0u64;
-                for pl in &payloads {
+                // payloads come out in write order: the k-th write owns the next `reported written` payloads
+                let mut owner: Vec<usize> = vec![];
+                for (i, p_) in pending.iter().enumerate() { for _ in 0..p_.2 { owner.push(i); } }
+                for (pi, pl) in payloads.iter().enumerate() {
                     let body: &[u8] = if lp {
                         if pl.len() < 4 { bad.push("length_prefix_is_exact"); pl } else {
                             let l = u32::from_le_bytes([pl[0], pl[1], pl[2], pl[3]]) as usize;
@@ -45,9 +48,9 @@ fn main() {
                     if body.len() > max { bad.push("payload_within_max_len"); }
                     let txt = String::from_utf8_lossy(body).to_string();
                     // one complete message: starts with a pending metric's name part, ends with its trailer + newline
-                    let hit = pending.iter().find(|(pre, _)| txt.starts_with(pre.split('\u{1}').next().unwrap()) && txt.ends_with(pre.split('\u{1}').nth(1).unwrap()));
+                    let hit = owner.get(pi).map(|i| &pending[*i]).filter(|(pre, _, _)| txt.starts_with(pre.split('\u{1}').next().unwrap()) && txt.ends_with(pre.split('\u{1}').nth(1).unwrap()));
                     match hit {
-                        Some((pre, _)) => {
+                        Some((pre, _, _)) => {
                             let head = pre.split('\u{1}').next().unwrap();
                             let tail = pre.split('\u{1}').nth(1).unwrap();
                             let mid = &txt[head.len()..txt.len() - tail.len()];
@@ -82,7 +85,7 @@ fn main() {
             };
             let ratetxt = if with_rate && (p[0] == "hist" || p[0] == "dist") { let mut b = ryu::Buffer::new(); format!("|@{}", b.format(f_with_len(g(&format!("rate{}", oi))))) } else { String::new() };
             let tstxt = ts.map(|t| format!("|T{}", t)).unwrap_or_default();
-            pending.push((format!("{}\u{1}|{}{}{}{}\n", name, ty, ratetxt, tagtxt, tstxt), nv.max(1)));
+            pending.push((format!("{}\u{1}|{}{}{}{}\n", name, ty, ratetxt, tagtxt, tstxt), nv.max(1), r.0));
             written += r.0; dropped += r.1; points += if p[0] == "counter" || p[0] == "gauge" { 1 } else { nv as u64 };
         }
         bad
